@@ -8,8 +8,9 @@ open Grog Grog.Paths Spec
 
 /-! ## inputs and outputs -/
 
-theorem inputErrors_nil {t : Target} : inputErrors t = [] ↔ ∀ i ∈ t.inputs, ¬ InputEscapes i := by
+theorem inputErrors_nil {t : Target} : inputErrors Cfg.current t = [] ↔ ∀ i ∈ t.checkedInputs, ¬ InputEscapes i := by
   unfold inputErrors
+  simp only [Cfg.current, if_true]
   rw [List.filterMap_eq_nil_iff]
   constructor
   · intro h i hi
@@ -203,7 +204,7 @@ theorem depErrors_nil {ns : List Node} (hnd : NoDuplicate ns) (hnc : NoCycle ns)
 
 theorem constraintErrors_nil_targets {ws : Bytes} (hws : isAbs ws = true) {ns : List Node} :
     (targetsOf ns).flatMap (targetErrors Cfg.current ws) = [] ↔
-      (∀ t, Node.target t ∈ ns → ∀ i ∈ t.inputs, ¬ InputEscapes i) ∧
+      (∀ t, Node.target t ∈ ns → ∀ i ∈ t.checkedInputs, ¬ InputEscapes i) ∧
       (∀ t, Node.target t ∈ ns → ∀ o ∈ t.outs, ¬ OutputEscapes ws t o) ∧
       (∀ t, Node.target t ∈ ns → t.isTest = true → t.hasCmd = true) := by
   rw [List.flatMap_eq_nil_iff]
@@ -225,7 +226,7 @@ theorem constraintErrors_nil_targets {ws : Bytes} (hws : isAbs ws = true) {ns : 
 theorem constraintErrors_nil {ws : Bytes} (hws : isAbs ws = true) {ns : List Node}
     (hnd : NoDuplicate ns) (hnc : NoCycle ns) :
     constraintErrors Cfg.current ws ns = [] ↔
-      (∀ t, Node.target t ∈ ns → ∀ i ∈ t.inputs, ¬ InputEscapes i) ∧
+      (∀ t, Node.target t ∈ ns → ∀ i ∈ t.checkedInputs, ¬ InputEscapes i) ∧
       (∀ t, Node.target t ∈ ns → ∀ o ∈ t.outs, ¬ OutputEscapes ws t o) ∧
       (∀ t, Node.target t ∈ ns → t.isTest = true → t.hasCmd = true) ∧
       ¬ BadTestDep ns := by
@@ -261,8 +262,9 @@ theorem relOuts_of_outputs {ws : Bytes} {ns : List Node}
 
 /-! ## the graph stage as a whole -/
 
-theorem buildGraph_none_iff {ns : List Node} (hnd : NoDuplicate ns) (hrel : RelOuts ns) :
-    buildGraph Cfg.current ns = none ↔ DepsDefined ns ∧ NoCycle ns ∧ ¬ Conflict ns := by
+theorem buildGraph_none_iff {ws : Bytes} (hws : isAbs ws = true) {ns : List Node} (hnd : NoDuplicate ns)
+    (hrel : RelOuts ns) :
+    buildGraph Cfg.current ws ns = none ↔ DepsDefined ns ∧ NoCycle ns ∧ ¬ Conflict ws ns := by
   unfold buildGraph
   have hfc := findCycle_spec ns
   constructor
@@ -278,7 +280,7 @@ theorem buildGraph_none_iff {ns : List Node} (hnd : NoDuplicate ns) (hrel : RelO
       · intro hnc h
         refine ⟨hdef, hnc, ?_⟩
         intro hc
-        rw [← hasConflict_iff hnd hdef hrel, ← hasConflictC_eq hnd hdef] at hc
+        rw [← hasConflict_iff hws hnd hdef hrel, ← hasConflictC_eq hnd hdef] at hc
         simp [hc] at h
       · intro hf; exact hf.elim
   · rintro ⟨hdef, hnc, hcf⟩
@@ -291,11 +293,11 @@ theorem buildGraph_none_iff {ns : List Node} (hnd : NoDuplicate ns) (hrel : RelO
     cases findCycle ns <;> simp only
     · intro h; exact absurd hnc h
     · intro _
-      have : hasConflictC Cfg.current ns = false := by
+      have : hasConflictC Cfg.current ws ns = false := by
         rw [hasConflictC_eq hnd hdef]
-        cases hh : hasConflict Cfg.current ns
+        cases hh : hasConflict Cfg.current ws ns
         · rfl
-        · exact absurd ((hasConflict_iff hnd hdef hrel).mp hh) hcf
+        · exact absurd ((hasConflict_iff hws hnd hdef hrel).mp hh) hcf
       simp [this]
     · intro hf; exact hf.elim
 
